@@ -140,6 +140,14 @@ def run(prog):
 
 
 
+def _is_len(t):
+    """len(node) / the length of the slice it derefs to"""
+    t = strip(t)
+    if mir.is_call(t, "len"):
+        return True
+    return isinstance(t, tuple) and t and t[0] == "un" and t[1] == "PtrMetadata" or show(t).startswith("PtrMetadata(")
+
+
 def trimming(prog):
     """CM4  the trimming base cases of canonicalize return an SDD equivalent to the element list they replace.
     For each `Some(x)` the function returns, the dominating tests (list length, is_true / is_false of primes and subs)
@@ -175,7 +183,7 @@ def trimming(prog):
         for c, holds in facts:
             if mir.is_call(c, "is_empty") and holds:
                 n = 0
-            if c[0] == "bin" and c[1] == "Eq" and holds and mir.is_call(strip(c[2]), "len") and strip(c[3])[0] == "const":
+            if c[0] == "bin" and c[1] == "Eq" and holds and _is_len(c[2]) and strip(c[3])[0] == "const":
                 n = int(strip(c[3])[2])
         k += 1
         key = "%s:CM4:trim#%d" % (fn.npath, k)
@@ -231,7 +239,7 @@ def trimming(prog):
         c = strip(c)
         if mir.is_call(c, "is_empty"):
             return int(n == 0)
-        if c[0] == "bin" and c[1] in ("Eq", "Ne", "Lt", "Le", "Gt", "Ge") and mir.is_call(strip(c[2]), "len") and strip(c[3])[0] == "const":
+        if c[0] == "bin" and c[1] in ("Eq", "Ne", "Lt", "Le", "Gt", "Ge") and _is_len(c[2]) and strip(c[3])[0] == "const":
             kk = int(strip(c[3])[2])
             return int({"Eq": n == kk, "Ne": n != kk, "Lt": n < kk, "Le": n <= kk, "Gt": n > kk, "Ge": n >= kk}[c[1]])
         if c[0] == "call" and c[1].name in ("is_true", "is_false") and c[2]:
@@ -244,12 +252,12 @@ def trimming(prog):
     def outcome(n, P, S):
         res = set()
 
-        def go(b, seen):
+        def go(b, seen, unk):
             if b in some_bbs:
                 res.add("some")
                 return
             if b in none_bbs:
-                res.add("none")
+                res.add("none?" if unk else "none")
                 return
             t = fn.blocks[b]["term"]
             if t["k"] == "return":
@@ -259,6 +267,7 @@ def trimming(prog):
                 v = val(te.switch_term[b][0], n, P, S)
                 if v is None:
                     nx = [x for _, x in t["targets"]] + [t["otherwise"]]
+                    unk = True
                 else:
                     tg = [x for vv, x in t["targets"] if int(vv) == v]
                     nx = [tg[0]] if tg else [t["otherwise"]]
@@ -266,18 +275,23 @@ def trimming(prog):
                 nx = list(cfg.succ[b])
             for s_ in nx:
                 if s_ not in seen and fn.blocks[s_]["term"]["k"] != "unreachable":
-                    go(s_, seen | {s_})
-        go(0, {0})
+                    go(s_, seen | {s_}, unk)
+        go(0, {0}, False)
         return res
     errs = []
+    unknown = False
     for s0 in ("T", "F", "x"):
-        if "none" in outcome(1, ["T"], [s0]):
+        o_ = outcome(1, ["T"], [s0])
+        unknown = unknown or "none?" in o_
+        if "none" in o_:
             errs.append("a single-element list (its prime is ⊤ by the partition property) with sub %s is not trimmed to its sub"
                         % {"T": "⊤", "F": "⊥", "x": "s"}[s0])
             break
     for S in (["T", "F"], ["F", "T"]):
-        if "none" in outcome(2, ["x", "x"], S):
+        o_ = outcome(2, ["x", "x"], S)
+        unknown = unknown or "none?" in o_
+        if "none" in o_:
             errs.append("a two-element list with subs (%s, %s) is not trimmed to the prime of the ⊤ sub" % tuple("⊤" if v == "T" else "⊥" for v in S))
-    out.append(inst("CM", "%s:CM4:trim-complete" % fn.npath, VIOLATION if errs else OK, fn, None,
+    out.append(inst("CM", "%s:CM4:trim-complete" % fn.npath, VIOLATION if errs else (UNDECIDED if unknown else OK), fn, None,
                     "; ".join(errs) if errs else "single elements and (⊤,⊥)/(⊥,⊤) pairs are always trimmed"))
     return out
